@@ -1,6 +1,7 @@
 package main
 
 import (
+	"go/types"
 	"go/token"
 	"runtime"
 	"fmt"
@@ -131,6 +132,25 @@ func (e *Engine) call(fn *ssa.Function, s *St, in *ssa.Call, ip int) (next []suc
 	}
 	name := callee.String()
 	switch name {
+	case "github.com/nspcc-dev/neo-go/pkg/rpcclient/actor.DefaultCheckerModifier":
+		// stub by its documented contract: an error iff the invocation did not end in the HALT state
+		p := args[0].(PtrV)
+		inv := e.load(s.State, p).(StructV)
+		st := callee.Signature.Params().At(0).Type().(*types.Pointer).Elem().Underlying().(*types.Struct)
+		for i := 0; i < st.NumFields(); i++ {
+			if st.Field(i).Name() == "State" {
+				state := inv.f[i].(BytesV)
+				eq := bytesEq(state.b, constBytes("HALT").b)
+				if !eq.isC() {
+					panic("DefaultCheckerModifier stub: symbolic state string")
+				}
+				if eq.b {
+					return set(NullV{})
+				}
+				return set(constBytes("script failed (stub error value)"))
+			}
+		}
+		panic("DefaultCheckerModifier stub: no State field")
 	case ipfx + "storage.GetContext", ipfx + "storage.GetReadOnlyContext", ipfx + "runtime.Log":
 		return set(UnitV{})
 	case ipfx + "runtime.Notify":
